@@ -49,7 +49,185 @@ KINDS = ["value", "noargs", "custom", "subclass", "quiet"]
 OUTSIDE_KINDS = ["base", "unpicklable"]
 
 
+# ------------------------------------------------------------------------------------------------ protocol classes (ext3)
+# "Several exception types" includes the types to which the Python runtime, the standard library or pipefunc's own code attach a
+# MEANING: `StopIteration` ends `list(map(f, xs))`, `zip`, `next()`, a `for` loop over a hand-written iterator; `StopAsyncIteration`
+# ends `async for`; `AttributeError` is what `getattr(x, n, default)` / `hasattr` swallow; `KeyError` / `IndexError` / `LookupError` are
+# what `dict.get`-like fallbacks and the legacy `__getitem__` iteration protocol swallow; `FileNotFoundError` / `OSError` mean "not
+# stored yet" to storage code; `ImportError` means "optional dependency missing"; `TimeoutError`, `CancelledError`, `BrokenExecutor`,
+# `InvalidStateError` are what an executor itself reports; `TypeError` / `ValueError` / `NotImplementedError` are typical
+# `try … except` fallbacks; `pickle.PicklingError`, `EOFError` are what transport reports.  A user function may raise any of them
+# and the property promises the same for all.  A protocol kind is the string `x:<module>.<qualname>:<shape>`, shape `n` = no args,
+# `a` = ("boom", tag), `v` = (tag,), `s` = the class's own constructor signature (fixed special arguments).
+def _walk_builtin(root):
+    seen, out = set(), []
+
+    def walk(c):
+        for s in c.__subclasses__():
+            if s.__module__ == "builtins" and s not in seen:
+                seen.add(s)
+                out.append(s)
+                walk(s)
+    walk(root)
+    return sorted(out, key=lambda c: c.__name__)
+
+
+def _special_args(cls, tag):
+    """constructor arguments of classes that refuse ("boom", tag)"""
+    n = cls.__name__
+    if n == "UnicodeDecodeError":
+        return ("utf-8", b"\xff", 0, 1, f"boom{tag}")
+    if n == "UnicodeEncodeError":
+        return ("ascii", "\xe9", 0, 1, f"boom{tag}")
+    if n == "UnicodeTranslateError":
+        return ("\xe9", 0, 1, f"boom{tag}")
+    if n in ("ExceptionGroup", "BaseExceptionGroup"):
+        return ("boom", [ValueError("inner", tag)])
+    if n in ("SyntaxError", "IndentationError", "TabError"):
+        return ("boom", ("file.py", tag, 1, "x = (", tag, 2))
+    if n == "JSONDecodeError":
+        return ("boom", "{}", 0)
+    if n == "CalledProcessError":
+        return (tag, "cmd")
+    if n == "IncompleteReadError":
+        return (b"", tag)
+    return None
+
+
+SPECIAL_ONLY = {"UnicodeDecodeError", "UnicodeEncodeError", "UnicodeTranslateError", "ExceptionGroup", "BaseExceptionGroup",
+                "JSONDecodeError", "CalledProcessError", "IncompleteReadError"}
+NO_A_SHAPE = {"SyntaxError", "IndentationError", "TabError"}          # a second argument must be the details tuple
+
+
+def _stdlib_classes():
+    import asyncio
+    import concurrent.futures as cf
+    import concurrent.futures.process
+    import concurrent.futures.thread
+    import json
+    import multiprocessing
+    import pickle
+    import queue
+    import subprocess
+    return [cf.CancelledError, cf.TimeoutError, cf.BrokenExecutor, cf.InvalidStateError, concurrent.futures.process.BrokenProcessPool,
+            concurrent.futures.thread.BrokenThreadPool, asyncio.CancelledError, asyncio.TimeoutError, asyncio.InvalidStateError,
+            asyncio.IncompleteReadError, asyncio.QueueEmpty, queue.Empty, queue.Full, pickle.PicklingError, pickle.UnpicklingError,
+            pickle.PickleError, multiprocessing.ProcessError, multiprocessing.TimeoutError, multiprocessing.AuthenticationError,
+            json.JSONDecodeError, subprocess.CalledProcessError, subprocess.TimeoutExpired]
+
+
+def qualified(cls):
+    return f"{cls.__module__}.{cls.__qualname__}"
+
+
+def resolve_class(qual):
+    import importlib
+    mod, _, name = qual.rpartition(".")
+    obj = importlib.import_module(mod)
+    for part in name.split("."):
+        obj = getattr(obj, part)
+    return obj
+
+
+def _shapes_of(cls):
+    if cls.__name__ in SPECIAL_ONLY:
+        return ["s"]
+    if cls.__name__ in NO_A_SHAPE:
+        return ["n", "v", "s"]
+    if cls.__name__ == "TimeoutExpired":
+        return ["a"]
+    return ["n", "a", "v"]
+
+
+def proto_kind(cls, shape):
+    return f"x:{qualified(cls)}:{shape}"
+
+
+def is_proto(kind):
+    return kind.startswith("x:")
+
+
+# classes whose meaning to the runtime / the executors / pipefunc's own code makes them likely to be swallowed or rewritten
+HEAVY_NAMES = ["StopIteration", "StopIteration", "StopIteration", "StopAsyncIteration", "KeyError", "IndexError", "LookupError", "AttributeError",
+               "TypeError", "ValueError", "NameError", "ImportError", "ModuleNotFoundError", "FileNotFoundError", "FileExistsError",
+               "PermissionError", "OSError", "TimeoutError", "NotImplementedError", "RuntimeError", "RecursionError", "AssertionError",
+               "EOFError", "MemoryError", "ZeroDivisionError", "Exception", "ExceptionGroup", "UnicodeDecodeError"]
+
+
+def proto_pool():
+    """(heavy, light, base): protocol kinds of `Exception` subclasses — the ones with a meaning to the machinery first, then every other
+    builtin / stdlib class — and the `BaseException`-only ones (outside the text, like `base`)."""
+    builtin = _walk_builtin(BaseException)
+    by_name = {c.__name__: c for c in builtin}
+    by_name["Exception"] = Exception
+    std = _stdlib_classes()
+    heavy_cls = [by_name[n] for n in HEAVY_NAMES] + [c for c in std if issubclass(c, Exception)][:9]
+    heavy, light, base = [], [], []
+    for c in heavy_cls:
+        heavy.extend(proto_kind(c, s) for s in _shapes_of(c))
+    seen = set(heavy)
+    for c in builtin + std:
+        for s in _shapes_of(c):
+            k = proto_kind(c, s)
+            if not issubclass(c, Exception):
+                if k not in base:
+                    base.append(k)
+            elif k not in seen:
+                seen.add(k)
+                light.append(k)
+    return heavy, light, base
+
+
+def pick_proto(rng, base_ok=False):
+    """one protocol kind: 70 % from the heavy pool (StopIteration three times as likely), else any other builtin / stdlib class"""
+    heavy, light, base = proto_pool()
+    if base_ok:
+        return rng.choice(base)
+    return rng.choice(heavy) if rng.random() < 0.7 else rng.choice(light)
+
+
+_KEEPS = {}
+
+
+def pickle_keeps_notes(kind):
+    """Does the class's own pickling keep the instance `__dict__` (where `__notes__` lives)?  `asyncio.IncompleteReadError` and
+    `json.JSONDecodeError` define a `__reduce__` that rebuilds the exception from its constructor arguments only: across a process
+    pool (the pool pickles the exception, not pipefunc) their note cannot arrive.  OUTSIDE the text ("custom picklable classes")."""
+    if kind not in _KEEPS:
+        import pickle
+        try:
+            e = make(kind, 0)
+            e.add_note("n")
+            _KEEPS[kind] = getattr(pickle.loads(pickle.dumps(e)), "__notes__", None) == ["n"]
+        except Exception:  # noqa: BLE001
+            _KEEPS[kind] = True
+    return _KEEPS[kind]
+
+
+def is_outside(kind):
+    """outside the property's quantifier: BaseException-only classes and unpicklable args"""
+    if kind in OUTSIDE_KINDS:
+        return True
+    if is_proto(kind):
+        return not issubclass(resolve_class(kind.split(":")[1]), Exception)
+    return False
+
+
+def make_proto(kind, tag):
+    _, qual, shape = kind.split(":")
+    cls = resolve_class(qual)
+    if shape == "n":
+        return cls()
+    if shape == "v":
+        return cls(tag)
+    if shape == "a":
+        return cls("boom", tag)
+    return cls(*_special_args(cls, tag))
+
+
 def make(kind: str, tag: int) -> Exception:
+    if is_proto(kind):
+        return make_proto(kind, tag)
     if kind == "value":
         return ValueError("boom", tag)
     if kind == "noargs":
@@ -78,15 +256,27 @@ def model_exn(kind: str, tag: int) -> dict:
     x = {"cls": clsname(e), "args": [a if isinstance(a, int) else {"s": a} if isinstance(a, str) else {"s": "$opaque:" + type(a).__name__} for a in e.args]}
     if not isinstance(e, Exception):
         x["base"] = True          # not caught by `except Exception`: the model erases note and snapshot
+    if isinstance(e, StopIteration):
+        x["stop"] = True          # no coroutine can raise it (PEP 479): `awaitExn` wraps it (`map_async`)
     return x
 
 
+def standin_exn(tag: int) -> dict:
+    """the stand-in a protocol exception is listed as in the oracle handed to the model; the request's `rename` table maps it to
+    the protocol exception (`mapOracle`, `C13_class_parametric`)"""
+    return {"cls": "c13.Standin", "args": [tag]}
+
+
 def enc_arg(a):
-    """encoding of one `e.args` element on the implementation side (agrees with `model_exn`)"""
+    """encoding of one `e.args` element on the implementation side (agrees with `model_exn`): ints and strings as themselves, other
+    scalars as `terms.enc` has them, containers and foreign objects as `$opaque:<type name>`"""
     import terms
-    j = terms.enc(a)
-    if isinstance(j, dict) and "opaque" in j:
-        return {"s": "$opaque:" + j["opaque"]}
+    try:
+        j = terms.enc(a)
+    except Exception:  # noqa: BLE001
+        j = {"opaque": type(a).__name__}
+    if isinstance(j, dict) and ("opaque" in j or "arr" in j):
+        return {"s": "$opaque:" + type(a).__name__}
     return j
 
 
